@@ -120,7 +120,7 @@ PROPERTIES = {
         "rule": TREE_RULE + "; for C08 the delete cases",
     },
     "C09": {
-        "runs": [{"suite": "tree"}],
+        "runs": [{"suite": "tree"}, {"suite": "hist"}],
         "level_text": "MOSTLY TIE (DESIGN 6/C09): the model has one transliteration per walk over a common value type, so backend agreement is true by construction there; the assurance is that EACH of the eight Rust functions "
                       "(resolve/resolve_mut/assign/delete x serde_json/toml) is compared per case against the model on both backends, and the harness runs every common-domain case through both value types and compares outcomes directly. "
                       "Proved: the parse_index-helper copy of resolve_mut is the same walk; deletes differ only at root (Null vs empty table); a value written through resolve_mut is read back by resolve at the same node and no other location changes.",
